@@ -34,6 +34,22 @@ fn main() {
             let nsteps: usize = arg(&args, "--steps", "60").parse().unwrap();
             let mut rng = StdRng::seed_from_u64(seed);
             for i in 0..traces {
+                if profile == "wide" || profile == "bigrtt" {
+                    let (cfg, script) = if profile == "wide" { steps::wide_script(&mut rng) } else { steps::bigrtt_script(&mut rng) };
+                    let tseed: u64 = rng.random();
+                    let Ok(mut d) = Driver::new(cfg.clone(), tseed) else { continue };
+                    let mut done: Vec<Value> = Vec::new();
+                    for s in &script {
+                        if d.dead || d.now_us > 1_800_000_000 {
+                            break;
+                        }
+                        d.step(s);
+                        done.push(steps::step_to_json(s));
+                    }
+                    write_trace(&mut tf, &mut sf, i, &cfg, tseed, &done, &d, &mut nlines);
+                    ntr += 1;
+                    continue;
+                }
                 let cfg = steps::random_cfg(&mut rng, &profile);
                 let tseed: u64 = rng.random();
                 let Ok(mut d) = Driver::new(cfg.clone(), tseed) else { continue };
@@ -259,6 +275,47 @@ fn main() {
                 }
                 write_trace(&mut tf, &mut sf, i as u64, &cfg, tseed, &done, &d, &mut nlines);
                 ntr += 1;
+            }
+        }
+        "staleprobe" => {
+            // C15, ten-minute rule at full Instant resolution: the trace clock of the walks is one
+            // microsecond, this probe places the second request 600 s + d nanoseconds after the first
+            // for d around zero and records which RTO it starts with.
+            use std::time::{Duration, Instant};
+            use stun_agent::{RttConfig, StunAttributes, StunClienteBuilder, StunClientEvent, TransportReliability};
+            let only: i64 = arg(&args, "--only", "0").parse().unwrap();
+            let deltas: Vec<i64> = if only != 0 { vec![only] } else {
+                vec![-1_000_000, -1001, -1000, -999, -1, 0, 1, 2, 400, 500, 999, 1000, 1001, 1_000_000]
+            };
+            for cfg_rto_ms in [500u64, 300, 40] {
+                for resp_ms in [1u64, 7, 100] {
+                    for &dn in &deltas {
+                        let mut client = StunClienteBuilder::new(TransportReliability::Unreliable(RttConfig {
+                            rto: Duration::from_millis(cfg_rto_ms), granularity: Duration::from_millis(1), rm: 16, rc: 7 }))
+                            .build().expect("client");
+                        let base = Instant::now();
+                        let m = stun_rs::MessageMethod::try_from(1u16).unwrap();
+                        let id = client.send_request(m, StunAttributes::default(), vec![0u8; 256], base).expect("send");
+                        let _ = client.events();
+                        let resp = rustun_verif_harness::obs::build(1, rustun_verif_harness::obs::CLASS_SUCCESS, id.as_bytes(), &[]);
+                        let r = client.on_buffer_recv(&resp, base + Duration::from_millis(resp_ms));
+                        let got: Vec<StunClientEvent> = client.events();
+                        let est = client.verif_snapshot().rtt.map(|r| r.rto).unwrap_or_default();
+                        let t2 = if dn >= 0 { base + Duration::from_secs(600) + Duration::from_nanos(dn as u64) }
+                                 else { base + Duration::from_secs(600) - Duration::from_nanos((-dn) as u64) };
+                        let id2 = client.send_request(m, StunAttributes::default(), vec![0u8; 256], t2);
+                        let snap = client.verif_snapshot();
+                        let used = id2.ok().and_then(|i| snap.transactions.iter().find(|t| t.id == i).map(|t| t.calc_rtt));
+                        let line = json!({"op":"stale","tr":ntr,"cfg_rto":cfg_rto_ms * 1000,"resp_ms":resp_ms,"dn":dn,
+                            "sampled": r.is_ok() && got.len() == 1,
+                            "est_rto_ns": est.as_nanos() as u64 % 2_000_000_000, "est_rto": (est.as_nanos() / 1000) as u64,
+                            "used_rto": used.map(|d| (d.as_nanos() / 1000) as i64).unwrap_or(-1),
+                            "used_exact": used.map(|d| d.as_nanos() % 1000 == 0).unwrap_or(false)});
+                        writeln!(tf, "{}", line).unwrap();
+                        nlines += 1;
+                        ntr += 1;
+                    }
+                }
             }
         }
         _ => {
